@@ -142,6 +142,8 @@ func genLine(t *simrt.Tape) string {
 	}
 }
 
+var datedVerb = regexp.MustCompile(`(?m)^[A-Z]+ `)
+
 func genCorpus(t *simrt.Tape, maxLines int) []byte {
 	n := t.WRange(0, maxLines)
 	var b bytes.Buffer
@@ -224,6 +226,26 @@ func genPipeScenario(rc *RunCtx, allowStdin bool, maxLinesPerInput int) *pipeSce
 	}
 	for n := t.W(3); n > 0; n-- {
 		sc.Ignores = append(sc.Ignores, genIgnore[t.W(len(genIgnore))])
+	}
+	if t.WBool(1, 8) {
+		// a dated log: most first tokens become one of a few dates (lines come in bursts that share a timestamp), and the
+		// ignore and extract expressions may parse them - whatever a time stage remembers between lines is shared by every
+		// goroutine that evaluates the compiled expression
+		dates := []string{"2021-03-04", "2021-03-05", "2020-12-31", "2021-03-04"}[:2+t.W(3)]
+		for i := range sc.Inputs {
+			sc.Inputs[i].Data = datedVerb.ReplaceAllFunc(sc.Inputs[i].Data, func(m []byte) []byte {
+				if t.W(4) == 0 {
+					return m
+				}
+				return []byte(dates[t.W(len(dates))] + " ")
+			})
+		}
+		if t.WBool(1, 2) {
+			sc.Ignores = append(sc.Ignores, []string{`{lt {time {1} 2006-01-02} 1614816000}`, `{eq {buckettime {1} month 2006-01-02} 2020-12}`}[t.W(2)])
+		}
+		if t.WBool(1, 2) {
+			sc.Extract = []string{`{time {1} 2006-01-02}`, `{buckettime {1} day 2006-01-02} {2}`, `{timeformat {time {1} 2006-01-02} 01/02}`}[t.W(3)]
+		}
 	}
 	sc.Batch = []int{1, 2, 3, 5, 1000}[t.W(5)]
 	sc.Workers = t.WRange(1, 4)
